@@ -216,7 +216,17 @@ fn peek_non_blocking(
         let bb = queue.peek_bypassable();
         let (n, nq) = queue.peek_non_blocking(network_delay_sum);
 
-        if bb > n {
+        // a base event takes place network_delay_sum later than its timestamp
+        let n_shifted = match (n, &nq) {
+            (Some(e), Queue::Base) if !network_delay_sum.is_zero() => {
+                let mut e = e.clone();
+                e.time += network_delay_sum;
+                Some(e)
+            }
+            _ => None,
+        };
+
+        if bb > n_shifted.as_ref().or(n) {
             (bb, Queue::Bypassable)
         } else {
             (n, nq)
